@@ -10,7 +10,7 @@ COQ_IMPORTS = 'From PB Require Import model.M_sort model.M_group.\n'
 PER_FILE = 400
 CASE_TIMEOUT = 5
 RULE = ('cases: tables of 0-8 rows (thorough 0-12) and 2-4 columns with scalar cells (None, ints incl. adjacent ints beyond 2^53, floats incl. 1 vs 1.0 and float(2**53), NaN, strings, datetimes); keys = every '
-        'kind of non-empty proper subset of the columns, duplicate / unique / mixed-type key columns (NaN cells of a key column share one object). '
+        'kind of non-empty proper subset of the columns, duplicate / unique / mixed-type key columns, NaN objects of different identity in key columns. '
         '(1) listby(by) and listby(by).unlist(), (2) groupby(by) (key table, every sub-table) and .ungroup(), incl. the ValueError on all columns, '
         '(3) xyz(x, y, z, agg) for agg in None/last/first/len/sum with string or small-int y labels and its unpivot(x, y, z). Whole result tables '
         '(columns in name order) are compared with the model inside Coq; the oracle re-derives from the property text: one row per distinct key, cells '
@@ -25,7 +25,7 @@ EXPLANATION = ('theorems C11_* (coq/props/C11.v), for every table and key choice
                'on every run, evaluated inside Coq')
 TRUSTED = ['modelled, not verified: dictable construction / concat / dict_concat plumbing (column order is observed up to sorting), CPython sorted() is stable',
            'the theorems are about the Gallina model (M_group.v); its agreement with _dictable.py is what the correspondence checks']
-ASSUMPTIONS = ['ints are exact at any size (adjacent ints beyond 2^53, 10**30 and float(2**53) are in the key pools); cells are scalars; NaN cells inside one key column are one object (tuple == goes by identity for NaN)', 'key columns are distinct existing names',
+ASSUMPTIONS = ['ints are exact at any size (adjacent ints beyond 2^53, 10**30 and float(2**53) are in the key pools); cells are scalars; keys are grouped with cmp(...) == 0 as /repo does since 9228ab2 (any two NaN are one key)', 'key columns are distinct existing names',
                'pivot: y values are strings or ints 0..9 that do not collide with column names; table non-empty']
 EXHAUSTIVE = {'quick': False, 'thorough': False}
 
@@ -51,7 +51,8 @@ def ctable(t, nans):
     return sorted([[str(c), [V.canon(x, nans) for x in t[c]]] for c in t.keys()])
 
 def same(a, b):
-    return a is b or a == b
+    # keys are grouped with cmp(...) == 0 (since /repo 9228ab2): == on scalars, and any two NaN are one key
+    return a is b or a == b or (isinstance(a, float) and isinstance(b, float) and a != a and b != b)
 def key_same(a, b):
     return len(a) == len(b) and all(same(x, y) for x, y in zip(a, b))
 def ceq(x, nans):
@@ -59,6 +60,8 @@ def ceq(x, nans):
     c = V.canon(x, nans)
     if c is not None and c[0] in ('i', 'f'):
         return ['n', 2 * c[1] if c[0] == 'i' else c[1]]
+    if c is not None and c[0] == 'nan':
+        return ['nan']                  # any two NaN are one key
     return c
 
 def stable_rows(t, cols, by, n):
@@ -252,7 +255,6 @@ def gen_cases(rng, tier):
                 by = list(names)                                    # all columns: ValueError
             else:
                 by = rng.sample(names, rng.randrange(1, len(names)))
-            cols = [[c, share_nan(cells) if c in by else cells] for c, cells in cols]
             cases.append({'kind': kind, 'cols': cols, 'by': by})
     for _ in range(700 if q else 9000):
         ncol = rng.choice([3, 3, 4])
@@ -276,7 +278,7 @@ def gen_cases(rng, tier):
             elif c == z:
                 cells = V.rand_column(rng, n, 'ints' if agg == 'sum' else rng.choice(['ints', 'mixed', 'nums', 'strs', 'none']))[1]
             elif c in x:
-                cells = share_nan(V.rand_column(rng, n, rng.choice(['ints', 'ints', 'nums', 'strs', 'mixed', 'numsnan', 'huge']))[1])
+                cells = V.rand_column(rng, n, rng.choice(['ints', 'ints', 'nums', 'strs', 'mixed', 'numsnan', 'huge']))[1]
             else:
                 cells = V.rand_column(rng, n)[1]
             cols.append([c, cells])
